@@ -285,6 +285,29 @@ pub fn check(prop: &str, tier: &str) -> i32 {
         }
         all_outputs.extend(out.xval_outputs);
     }
+    // deeper stacks than the closure's box: every stack of depth <= 5 (6) over one representative per kind class,
+    // consumers run once from each
+    if matches!(prop, "C01" | "C03" | "C17") {
+        for p in (0..=5u8).rev() {
+            let depth = match (tier == "quick", p) {
+                (true, _) => 5,
+                (false, 4 | 5) => 6,
+                (false, _) => 7,
+            };
+            let t0 = std::time::Instant::now();
+            let ex = Explorer { base_cfg: Cfg::new(p).flags(true, true), opts: Opts { ref_in_key: true, ..Opts::default() }, monitor: &guard, xval_full: Default::default(), choice_discovery: Default::default() };
+            let out = crate::explore::product_stacks(&ex, depth);
+            let l = format!("P{p}/none/product-stacks-depth{depth}");
+            if verbose {
+                eprintln!("plan {l:<40} states={:>8} transitions={:>10} found={} {:.2}s", out.stats.states, out.stats.transitions, out.found.len(), t0.elapsed().as_secs_f64());
+            }
+            n_plans += 1;
+            rep.add_stats(&l, &out.stats);
+            for fd in &out.found {
+                rep.finding(fd);
+            }
+        }
+    }
     // seed sweep (PRNG mode) through the same monitor — a labelled sweep, not exhaustive
     let sweep_n: u64 = if tier == "quick" { 150 } else { 5000 };
     let mut sweep_runs = 0u64;
